@@ -39,8 +39,9 @@ Adf2xDocs == {[kind |-> "adf2x", file |-> f, ne |-> ne, nn |-> nn, ntt |-> ntt] 
 Expected2x(d) == [cm3 |-> d.file # "adf22bmp", outcome |-> "ok"]
 
 \* ADF15: transition blocks in file order, index (ISEL) table in the comments, three header conventions
-Adf15Docs == {[kind |-> "adf15", header |-> h, nb |-> nb, nd |-> nd, nt |-> nt, perm |-> p, missing |-> ms] :
-                 h \in {"hydrogen", "hydrogen-like", "full"}, nb \in 1..3, nd \in {1, 3, 9}, nt \in {2, 8, 11}, p \in BOOLEAN, ms \in BOOLEAN}
+\* rule: is the index table's column header followed by a dashed rule line (the open-ADAS layout) or directly by the first row
+Adf15Docs == {[kind |-> "adf15", header |-> h, nb |-> nb, nd |-> nd, nt |-> nt, perm |-> p, missing |-> ms, rule |-> ru] :
+                 h \in {"hydrogen", "hydrogen-like", "full"}, nb \in 1..3, nd \in {1, 3, 9}, nt \in {2, 8, 11}, p \in BOOLEAN, ms \in BOOLEAN, ru \in BOOLEAN}
 BlockType(k) == CASE k = 1 -> "excitation" [] k = 2 -> "recombination" [] k = 3 -> "thermalcx"
 \* with perm the index table lists the blocks in reverse order: the assignment must follow ISEL, not position
 Expected15(d) == [blocks |-> [k \in 1..d.nb |-> [isel |-> k, cls |-> BlockType(k), upper |-> k + 2, lower |-> k + 1, wavelength_A |-> 1000 * k + 5]],
